@@ -20,6 +20,7 @@ CONSTANTS N, I, SuspT, D, Lo, Hi, K,
           OffStep,        \* start() of node n is called at (n - 1) * OffStep
           MaxStop, StopBy, MaxInj, InjStates, MaxInc, MaxTime,
           MaxSlow,        \* at most MaxSlow messages of a behaviour get a non-zero delay
+          AllInit,        \* TRUE: every initial probe order (the shuffle in start()); FALSE: index order only
           Canon           \* TRUE: same-instant events of different nodes are taken in node order (they commute)
 
 Node == 1..N
@@ -37,7 +38,7 @@ InjSet == { Upd(m, st, i) : m \in Node, st \in InjStates, i \in 0..MaxInc }
 Emb(n, j) == IF j < n THEN j ELSE j + 1      \* j-th peer of n in index order
 
 Init ==
-    /\ \E q \in [Node -> Perms(1..(N - 1))] :        \* random.shuffle(_probe_order) in start()
+    /\ \E q \in (IF AllInit THEN [Node -> Perms(1..(N - 1))] ELSE {[n \in Node |-> [j \in 1..(N - 1) |-> j]]}) :   \* shuffle in start()
           nd = [n \in Node |-> InitNode(N, n, [j \in 1..(N - 1) |-> Emb(n, q[n][j])])]
     /\ nt = [n \in Node |-> Offsets[n] + I]
     /\ msgs = {} /\ now = 0 /\ stopped = {} /\ stopAt = -1 /\ cut = FALSE /\ lied = FALSE
